@@ -82,6 +82,10 @@ struct ScriptEngine : detail::EngineBase
   Callbacks cbs;
   std::atomic<bool> running{false};
   std::atomic<bool> stopReq{false};
+  // "atstop": the rest of the I/O thread's script is the remainder of the batch it is working through when stop() is called - the
+  // real engines finish their current epoll batch after _running became false, i.e. they still deliver data / accepts / closes
+  // AFTER a teardown fence went up and BEFORE the sessions are closed
+  std::atomic<bool> stopCalled{false}, lateArmed{false}, lateDone{false};
   std::thread io;
   std::thread::id ioId;
   std::atomic<bool> detached{false};
@@ -110,6 +114,9 @@ struct ScriptEngine : detail::EngineBase
     if (std::this_thread::get_id() != ioId) sl.lock();
     bool e = true;
     if (!running.compare_exchange_strong(e, false)) return;
+    stopCalled = true;
+    if (std::this_thread::get_id() != ioId)
+      while (lateArmed.load() && !lateDone.load() && !detached.load()) sched_yield(); // the I/O thread finishes its batch
     stopReq = true;
     if (io.joinable() && !detached.load()) io.join();
   }
@@ -315,6 +322,7 @@ static void ioLoop(World *w, ScriptEngine *e)
     if (e->stopReq.load() || e->detached.load()) break;
     if (!p || i >= p->ops.size())
     {
+      if (e->lateArmed.load()) e->lateDone = true;
       sched_yield(); // idle: wait for commands / stop
       continue;
     }
@@ -326,6 +334,17 @@ static void ioLoop(World *w, ScriptEngine *e)
       {
         sched_yield();
         continue; // retry the same op
+      }
+      ++i;
+      continue;
+    }
+    if (op == "atstop")
+    {
+      e->lateArmed = true;
+      if (!e->stopCalled.load())
+      {
+        sched_yield();
+        continue; // retry: the rest of the script runs once stop() has been called
       }
       ++i;
       continue;
